@@ -76,10 +76,7 @@ func errDiscipline(c *Ctx, rule string, fns []*ssa.Function, floor int) {
 							}
 							continue
 						}
-						// e == sentinel
-						if !anyFact(fs.At(x.Block()), nonNil) && bad == "" && len(tests) > 0 {
-							bad = "the error is compared at " + p.pos(x.Pos()) + " outside the `!= nil` arm"
-						}
+						// e == sentinel: a test, fine anywhere
 					case *ssa.Phi, *ssa.Return, *ssa.DebugRef, *ssa.Store:
 					default:
 						_ = x
@@ -89,14 +86,17 @@ func errDiscipline(c *Ctx, rule string, fns []*ssa.Function, floor int) {
 					continue
 				}
 				tested++
-				// uses on the wrong side
+				// uses on the wrong side: a use (wrapping, logging, errors.Is) where the error is known to be nil
+				// contradicts the test. (A use where nothing is known - `if errors.Is(err, X) {…}; if err != nil {…}` -
+				// is an accepted idiom: errors.Is(nil, X) is false.)
+				isNil := func(f Fact) bool { return cmpFact(f, token.EQL, isE, isNilConst) }
 				for _, r := range *e.Referrers() {
 					switch r.(type) {
 					case *ssa.BinOp, *ssa.Phi, *ssa.Return, *ssa.DebugRef, *ssa.Store:
 						continue
 					}
-					if !anyFact(fs.At(r.Block()), nonNil) {
-						bad = fmt.Sprintf("the error tested at %s is used at %s on a path where it is not known to be non-nil (test inverted or missing)", p.pos(tests[0].Pos()), p.pos(r.Pos()))
+					if anyFact(fs.At(r.Block()), isNil) {
+						bad = fmt.Sprintf("the error tested at %s is used at %s on the side where it is known to be nil (test inverted)", p.pos(tests[0].Pos()), p.pos(r.Pos()))
 					}
 				}
 				if !retErr {
